@@ -1,7 +1,8 @@
 (* C14 -- Damaged or partial files are rejected cleanly; failed saves are reported.
    Nothing but statements closed by `exact <lemma>` and Print Assumptions. *)
 From Coq Require Import List NArith ZArith Bool Lia.
-From PV Require Import Msgpack.Codec Msgpack.CodecProofs.
+From PV Require Import Base.Err Shape.ShapeImpl Msgpack.Codec Msgpack.FileFormat Msgpack.CodecProofs Msgpack.FileProofs
+  Msgpack.LoadAtomic Msgpack.FileRoundtrip Msgpack.FilePrefix.
 Import ListNotations.
 Local Open Scope N_scope.
 
@@ -18,6 +19,125 @@ Theorem C14_proper_prefix_rejected_value t (x : val t) n :
 Proof. exact (proper_prefix_rejected_value t x n). Qed.
 Print Assumptions C14_proper_prefix_rejected_value.
 
+(* The same for the three file readers: load() never looks beyond what it consumes. *)
+Theorem C14_load_extension :
+  (forall ws b p r p' s, load_parameter ws (b, p) = (Some tt, (r, p')) -> load_parameter ws ((b ++ s : bytes), p) = (Some tt, ((r ++ s : bytes), p'))) /\
+  (forall ws b es r es' s, load_model ws (b, es) = (Some tt, (r, es')) -> load_model ws ((b ++ s : bytes), es) = (Some tt, ((r ++ s : bytes), es'))) /\
+  (forall b o r o' s, load_optimizer (b, o) = (Some tt, (r, o')) -> load_optimizer ((b ++ s : bytes), o) = (Some tt, ((r ++ s : bytes), o'))).
+Proof.
+  exact (conj (fun ws b p r p' s => ext_load_parameter ws b p tt r p' s)
+        (conj (fun ws b es r es' s => ext_load_model ws b es tt r es' s)
+              (fun b o r o' s => ext_load_optimizer b o tt r o' s))).
+Qed.
+Print Assumptions C14_load_extension.
+
+(* Every proper prefix of a valid file of each kind is rejected; the Parameter / Optimizer it was
+   loaded into is exactly as before; in a Model every Parameter is as before or completely new. *)
+Theorem C14_proper_prefix_rejected_parameter ws p p0 n : wf_param p -> (n < length (enc_param_file ws p))%nat ->
+  exists b', load_parameter ws (firstn n (enc_param_file ws p), p0) = (None, (b', p0)).
+Proof. exact (proper_prefix_rejected_parameter ws p p0 n). Qed.
+Print Assumptions C14_proper_prefix_rejected_parameter.
+
+Theorem C14_proper_prefix_rejected_model ws (es st0 : entries) n :
+  Forall wf_entry es -> NoDup (map fst es) -> N.of_nat (length es) < 2 ^ 32 -> map fst st0 = map fst es ->
+  (n < length (enc_model_file ws es))%nat ->
+  exists b' st', load_model ws (firstn n (enc_model_file ws es), st0) = (None, (b', st')) /\
+                 rel_entries ws (firstn n (enc_model_file ws es)) st0 st'.
+Proof. exact (proper_prefix_rejected_model ws es st0 n). Qed.
+Print Assumptions C14_proper_prefix_rejected_model.
+
+Theorem C14_proper_prefix_rejected_optimizer o o0 n :
+  wf_optim o -> o_kind o0 = o_kind o -> length (o_hp o0) = length (o_hp o) ->
+  (n < length (enc_opt_file (uint_configs o) (float_configs o)))%nat ->
+  exists b', load_optimizer (firstn n (enc_opt_file (uint_configs o) (float_configs o)), o0) = (None, (b', o0)).
+Proof. exact (proper_prefix_rejected_optimizer o o0 n). Qed.
+Print Assumptions C14_proper_prefix_rejected_optimizer.
+
+(* load_atomic.  For ANY bytes and ANY old state: a failed Parameter::load changes nothing (valid
+   flag, shape, value, gradient, statistics); a successful one makes the Parameter one completely
+   read record ([complete_record]: all five members come from one complete, consistent read of a
+   Parameter body located in the file). *)
+Theorem C14_load_atomic_parameter ws file p res b' p' :
+  load_parameter ws (file, p) = (res, (b', p')) ->
+  match res with None => p' = p | Some _ => complete_record ws file p' end.
+Proof. exact (load_parameter_atomic ws file p res b' p'). Qed.
+Print Assumptions C14_load_atomic_parameter.
+
+(* Model::load, success or failure at any point: the paths are unchanged and every Parameter is
+   either exactly as it was or one completely read record - value, gradient, statistics and shape
+   never mix old and new. *)
+Theorem C14_load_atomic_model ws file es res b' es' :
+  load_model ws (file, es) = (res, (b', es')) ->
+  Forall2 (fun e e' => fst e' = fst e /\ (snd e' = snd e \/ complete_record ws file (snd e'))) es es'.
+Proof. exact (load_model_atomic ws file es res b' es'). Qed.
+Print Assumptions C14_load_atomic_model.
+
+(* A failed Optimizer::load changes no setting. *)
+Theorem C14_load_atomic_optimizer file o b' o' : load_optimizer (file, o) = (None, (b', o')) -> o' = o.
+Proof. exact (load_optimizer_atomic file o b' o'). Qed.
+Print Assumptions C14_load_atomic_optimizer.
+
+(* accepted_is_wellformed: whatever load() accepts starts with version 0.1 and the data-type tag of
+   the object, continues with a complete body in which every tensor's payload has 4 * size(shape)
+   bytes ([tensor_ok]) and the value has batch size 1; a Model file names only paths the model has,
+   and as many entries as it announces; an Optimizer file carries no negative scaling / decay /
+   clipping.  The object then holds exactly what was read. *)
+Theorem C14_accepted_is_wellformed_parameter ws file p0 r p' :
+  load_parameter ws (file, p0) = (Some tt, (r, p')) ->
+  exists body v kvs,
+    rd_header file = Some ((VER_MAJOR, VER_MINOR, DT_PARAMETER), body) /\
+    rd_param_inner body = Some ((v, kvs), r) /\
+    batch (tshape v) = 1 /\ tensor_ok v /\ Forall (fun kv => tensor_ok (snd kv)) kvs /\
+    p' = commit ws v kvs.
+Proof. exact (accepted_is_wellformed_parameter ws file p0 r p'). Qed.
+Print Assumptions C14_accepted_is_wellformed_parameter.
+
+Theorem C14_accepted_is_wellformed_model ws file es r es' :
+  load_model ws (file, es) = (Some tt, (r, es')) ->
+  map fst es' = map fst es /\
+  exists body n b1 recs,
+    rd_header file = Some ((VER_MAJOR, VER_MINOR, DT_MODEL), body) /\
+    r_u32 body = Some (n, b1) /\ rd_loop rd_entry (N.to_nat n) b1 = Some (recs, r) /\
+    Forall (entry_ok es) recs.
+Proof. exact (accepted_is_wellformed_model ws file es r es'). Qed.
+Print Assumptions C14_accepted_is_wellformed_model.
+
+Theorem C14_accepted_is_wellformed_optimizer file o r o' :
+  load_optimizer (file, o) = (Some tt, (r, o')) ->
+  exists body uc fc b1,
+    rd_header file = Some ((VER_MAJOR, VER_MINOR, DT_OPTIMIZER), body) /\
+    r_map r_str r_u32 body = Some (uc, b1) /\ r_map r_str r_f32 b1 = Some (fc, r) /\
+    (forall key v, In key [N_LR_SCALE; N_L2; N_CLIP] -> assoc bytes_eqb key fc = Some v -> float_neg v = false) /\
+    set_configs uc fc (r, o) = (Some tt, (r, o')).
+Proof. exact (accepted_is_wellformed_optimizer file o r o'). Qed.
+Print Assumptions C14_accepted_is_wellformed_optimizer.
+
+(* save_reports_failure: in the model of the repaired code (ofs.close(); if (ofs.fail()) throw),
+   a save whose path cannot be opened, or whose device takes fewer bytes than the file has, ends
+   with an error; if there is room it returns normally and the file is the complete encoding. *)
+Theorem C14_save_reports_failure :
+  (forall open_ok ws p room, p_valid p = true -> (open_ok = false \/ room < len (enc_param_file ws p)) ->
+     fst (run_save (save_parameter open_ok ws p) room) = false) /\
+  (forall open_ok ws es room, (open_ok = false \/ room < len (enc_model_file ws es)) ->
+     fst (run_save (save_model open_ok ws es) room) = false) /\
+  (forall open_ok uc fc room, (open_ok = false \/ room < len (enc_opt_file uc fc)) ->
+     fst (run_save (save_optimizer open_ok uc fc) room) = false) /\
+  (forall ws p room, p_valid p = true -> len (enc_param_file ws p) <= room ->
+     run_save (save_parameter true ws p) room = (true, enc_param_file ws p)).
+Proof.
+  exact (conj save_reports_failure_parameter (conj save_reports_failure_model
+        (conj save_reports_failure_optimizer save_ok_complete_parameter))).
+Qed.
+Print Assumptions C14_save_reports_failure.
+
+(* the code as pinned (before fix cf663f3, no stream check) violates this: it returns normally
+   with a truncated file - kept as the witness that the theorem above can fail *)
+Theorem C14_save_silent_refuted_pinned :
+  exists p room, p_valid p = true /\ room < len (enc_param_file false p) /\
+    run_save (save_parameter_pinned true false p) room = (true, firstn (N.to_nat room) (enc_param_file false p)).
+Proof. exact save_silent_refuted_pinned. Qed.
+Print Assumptions C14_save_silent_refuted_pinned.
+
 Example C14_nonvacuous :
   let t := KVec KStr in
   let x : val t := [[1; 2; 3]; []] in
@@ -27,3 +147,16 @@ Proof.
   cbn [wfv]. split; [vm_compute; reflexivity|].
   apply Forall_cons; [vm_compute; reflexivity|]. apply Forall_cons; [vm_compute; reflexivity|]. apply Forall_nil.
 Qed.
+
+(* a concrete valid file, all of its 41 proper prefixes rejected, a corrupted batch rejected, and
+   the old parameter (with non-zero gradient and a statistic) untouched *)
+Example C14_nonvacuous_file :
+  let sh := mkS [2] 1 2 in
+  let p := mkP true sh (mkT sh [1; 2]) (mkT sh [0; 0]) [] in
+  let old := mkP true scalar_shape (mkT scalar_shape [7]) (mkT scalar_shape [8]) [([1], mkT scalar_shape [9])] in
+  let f := enc_param_file false p in
+  length f = 41%nat /\
+  forallb (fun n => match load_parameter false (firstn n f, old) with (None, (_, q)) => true | _ => false end) (seq 0 41) = true /\
+  load_parameter false (f, old) = (Some tt, ([], loaded false p)) /\
+  fst (load_parameter false (firstn 25 f ++ [2] ++ skipn 26 f, old)) = None.
+Proof. split; [|split; [|split]]; vm_compute; reflexivity. Qed.
